@@ -119,7 +119,7 @@ public:
 
 	// If we use pass by value idiom and omit the 'this' check,
 	// when assigning to self there is a deep copy which is inefficient.
-	HeterCallbackListBase & operator = (const HeterCallbackListBase & other) noexcept
+	HeterCallbackListBase & operator = (const HeterCallbackListBase & other)
 	{
 		if(this != &other) {
 			HeterCallbackListBase copied(other);
